@@ -220,6 +220,11 @@ Lemma R_lg_set_ft c st sp x :
   R_lg c st sp -> R_lg c (l_set_ft st x) {| s_pend := s_pend sp; s_fs := x |}.
 Proof. intros (Hp & Hf & Hh). unfold R_lg, l_set_ft. cbn. auto. Qed.
 
+Lemma R_lg_intro c st sp :
+  (if l_wait st then s_pend sp = Some (l_t0 st, l_info st) else s_pend sp = None) ->
+  l_ft st = s_fs sp -> (hold c = None -> l_wait st = false) -> R_lg c st sp.
+Proof. intros H1 H2 H3. repeat split; auto. Qed.
+
 Lemma lg_step_sim cmp c :
   (forall x y, negb (zcmp cmp x y) = (y <=? x)) ->
   forall st sp t i, R_lg c st sp -> okall i = true -> (forall e, sp_due c sp = Some e -> t < e) ->
@@ -228,22 +233,19 @@ Lemma lg_step_sim cmp c :
 Proof.
   intros Hcmp st sp t i HR _ _. destruct i as [ok a|a|a|]; cbn [lg_step sp_step]; auto.
   - destruct (hold_false c) as [hf|] eqn:Ehf.
-    + destruct HR as (Hp & Hf & Hh). assert (Eft : l_ft st = s_fs sp) by (apply Hf; discriminate).
+    + assert (Eft : l_ft st = s_fs sp) by (destruct HR as (_ & Hf & _); apply Hf; congruence).
       unfold lg_hf_block. rewrite Eft.
-      destruct (s_fs sp) as [f|] eqn:Efs; destruct ok.
+      destruct (s_fs sp) as [f|] eqn:Efs; destruct ok; cbv iota beta; cbn [fst snd].
       * rewrite Hcmp. destruct (hf <=? t - f).
-        -- apply lg_hold_block_sim. apply (R_lg_set_ft c st sp None). repeat split; auto.
-        -- cbn [fst snd]. split; [reflexivity|]. apply (R_lg_set_ft c st sp None). repeat split; auto.
-      * apply lg_hold_block_false_sim.
-        -- apply (R_lg_set_ft c st sp (Some f)). repeat split; auto.
-        -- reflexivity.
-      * cbn [fst snd]. split; [reflexivity|]. unfold R_lg, l_set_ft. cbn. rewrite Efs. repeat split; auto.
-      * apply lg_hold_block_false_sim.
-        -- apply (R_lg_set_ft c st sp (Some t)). repeat split; auto.
-        -- reflexivity.
+        -- apply lg_hold_block_sim. apply (R_lg_set_ft c st sp None). exact HR.
+        -- cbn [fst snd]. split; [reflexivity|]. apply (R_lg_set_ft c st sp None). exact HR.
+      * eapply lg_hold_block_false_sim; [apply (R_lg_set_ft c st sp (Some f)); exact HR|reflexivity].
+      * cbn [fst snd]. split; [reflexivity|]. destruct HR as (Hp & Hf & Hh).
+        apply R_lg_intro; cbn; auto.
+      * eapply lg_hold_block_false_sim; [apply (R_lg_set_ft c st sp (Some t)); exact HR|reflexivity].
     + destruct ok.
       * apply lg_hold_block_sim. exact HR.
-      * apply lg_hold_block_false_sim; [exact HR|]. intros H; congruence.
+      * cbn [fst snd]. eapply lg_hold_block_false_sim; [exact HR|]. intros H; congruence.
   - apply lg_hold_block_sim. exact HR.
 Qed.
 
@@ -274,13 +276,9 @@ Lemma lg_machine_sim cmp c ia ib h :
   run_machine (lg_machine cmp c) ia h = run_machine (sp_machine c) ib h.
 Proof.
   intros Hcmp Ho HR Htf.
-  apply (run_machine_sim (lg_machine cmp c) (sp_machine c) (R_lg c) okall); auto.
-  - apply lg_due_eq.
-  - apply lg_post_eq.
-  - apply lg_expire_sim.
-  - apply sp_expire_clears.
-  - apply lg_step_sim. exact Hcmp.
-  - apply okall_all.
+  apply (run_machine_sim (lg_machine cmp c) (sp_machine c) (R_lg c) okall);
+    [apply lg_due_eq|apply lg_post_eq|apply lg_expire_sim|apply sp_expire_clears|apply lg_step_sim; exact Hcmp
+    |exact Ho|exact HR|apply okall_all|exact Htf].
 Qed.
 
 Lemma lg_init_sim c truth :
@@ -325,6 +323,11 @@ Qed.
 Lemma R_dm_largs c st sp a : R_dm c st sp -> R_dm c (d_set_largs st a) sp.
 Proof. intros H. exact H. Qed.
 
+Ltac rdm :=
+  unfold R_dm;
+  cbn [d_tea d_fea d_hfe d_hargs d_largs d_set_fea d_set_tea d_set_largs d_start_hold s_pend s_fs fst snd];
+  repeat split; auto; try (intros; congruence).
+
 Lemma dm_step_sim c st sp t i :
   R_dm c st sp -> okin c i = true -> (forall e, sp_due c sp = Some e -> t < e) ->
   snd (dm_step no_dev c st t i) = snd (sp_step c sp t i)
@@ -333,31 +336,34 @@ Proof.
   intros HR Hok Hlt. destruct i as [ok a|a|a|]; cbn [dm_step sp_step no_dev d_irr_as_false]; auto.
   - (* HEval *)
     pose proof (R_dm_largs c st sp a HR) as HR'. set (st' := d_set_largs st a) in *.
-    destruct HR' as (Hp & Hf & He & Hh). unfold dm_check. rewrite He.
+    assert (He : d_hfe st' = hold_false c) by apply HR'.
+    unfold dm_check. rewrite He.
     destruct ok.
     + destruct (hold_false c) as [hf|] eqn:Ehf.
-      * assert (Efe : d_fea st' = s_fs sp) by (apply Hf; discriminate). rewrite Efe.
+      * assert (Efe : d_fea st' = s_fs sp) by (destruct HR' as (_ & Hf & _); apply Hf; congruence).
+        rewrite Efe.
         destruct (s_fs sp) as [f|] eqn:Efs.
         -- rewrite dm_false_cmp_ok.
            assert (HRn : R_dm c (d_set_fea st' None) {| s_pend := s_pend sp; s_fs := None |}).
-           { unfold R_dm. cbn. rewrite Ehf. repeat split; auto. }
+           { destruct HR' as (Hp & Hf & _ & Hh). rdm. }
            destruct (hf <=? t - f).
            ++ apply (dm_trigger_sim c (d_set_fea st' None) {| s_pend := s_pend sp; s_fs := None |} t HRn).
               intros e. unfold sp_due. cbn [s_pend]. apply Hlt.
            ++ cbn [fst snd]. split; [reflexivity|exact HRn].
-        -- cbn [fst snd]. split; [reflexivity|]. unfold R_dm. rewrite Ehf. repeat split; auto.
-      * apply (dm_trigger_sim c st' sp t); [|exact Hlt]. unfold R_dm. rewrite Ehf. repeat split; auto.
-    + cbn [fst snd]. split; [reflexivity|].
+        -- cbn [fst snd]. split; [reflexivity|exact HR'].
+      * apply (dm_trigger_sim c st' sp t); [exact HR'|exact Hlt].
+    + cbn [fst snd]. split; [reflexivity|]. destruct HR' as (Hp & Hf & _ & Hh).
       destruct (hold_false c) as [hf|] eqn:Ehf.
-      * assert (Efe : d_fea st' = s_fs sp) by (apply Hf; discriminate). rewrite Efe.
-        destruct (s_fs sp) as [f|] eqn:Efs; unfold R_dm; cbn; rewrite Ehf; repeat split; auto.
-      * unfold R_dm. cbn. rewrite Ehf. repeat split; auto. intros H; congruence.
+      * assert (Efe : d_fea st' = s_fs sp) by (apply Hf; congruence). rewrite Efe.
+        destruct (s_fs sp) as [f|] eqn:Efs; rdm.
+      * rdm.
   - (* HAny: only when hold_false is unset *)
     unfold okin in Hok. cbn [is_any] in Hok. rewrite andb_true_r in Hok.
     destruct (hold_false c) as [hf|] eqn:Ehf; [discriminate|].
     pose proof (R_dm_largs c st sp a HR) as HR'. set (st' := d_set_largs st a) in *.
-    unfold dm_check. destruct HR' as (Hp & Hf & He & Hh). rewrite He.
-    apply (dm_trigger_sim c st' sp t); [|exact Hlt]. unfold R_dm. rewrite Ehf. repeat split; auto.
+    assert (He : d_hfe st' = hold_false c) by apply HR'.
+    unfold dm_check. rewrite He, Ehf.
+    apply (dm_trigger_sim c st' sp t); [exact HR'|exact Hlt].
 Qed.
 
 Lemma dm_due_eq c st sp : R_dm c st sp -> dm_due c st = sp_due c sp.
@@ -387,13 +393,9 @@ Lemma dm_machine_sim c ia ib h :
   run_machine (dm_machine no_dev c) ia h = run_machine (sp_machine c) ib h.
 Proof.
   intros Ho HR Hany Htf.
-  apply (run_machine_sim (dm_machine no_dev c) (sp_machine c) (R_dm c) (okin c)); auto.
-  - apply dm_due_eq.
-  - apply dm_post_eq.
-  - apply dm_expire_sim.
-  - apply sp_expire_clears.
-  - apply dm_step_sim.
-  - apply any_ok_okin. exact Hany.
+  apply (run_machine_sim (dm_machine no_dev c) (sp_machine c) (R_dm c) (okin c));
+    [apply dm_due_eq|apply dm_post_eq|apply dm_expire_sim|apply sp_expire_clears|apply dm_step_sim
+    |exact Ho|exact HR|apply any_ok_okin; exact Hany|exact Htf].
 Qed.
 
 Lemma dm_init_sim wu c truth :
@@ -437,3 +439,273 @@ Proof.
   - f_equal. apply lg_machine_sim; [apply wu_cmp_ok|apply wul_init_sim|apply wul_init_sim|].
     apply no_ties_run_tie_free. exact Hnt.
 Qed.
+
+(* ---------- irrelevant inputs affect nothing (last sentence of the property) ---------- *)
+Lemma sorted_from_all t h : sorted_from t h = true -> Forall (fun x => t < fst x) h.
+Proof.
+  revert t. induction h as [|[t' i] r IH]; intros t H; constructor.
+  - cbn in H. cbn. lia.
+  - cbn in H. apply andb_true_iff in H as [H1 H2]. specialize (IH t' H2).
+    eapply Forall_impl; [|exact IH]. cbn. intros x Hx. lia.
+Qed.
+
+Lemma sorted_from_weaken t t' h : t' <= t -> sorted_from t h = true -> sorted_from t' h = true.
+Proof. destruct h as [|[u i] r]; cbn; auto. intros. lia. Qed.
+
+Lemma sorted_from_filter f t h : sorted_from t h = true -> sorted_from t (filter (fun x => f (snd x)) h) = true.
+Proof.
+  revert t. induction h as [|[u i] r IH]; intros t H; cbn; auto.
+  cbn in H. apply andb_true_iff in H as [H1 H2]. cbn [snd].
+  destruct (f i); cbn.
+  - rewrite H1, (IH u H2). reflexivity.
+  - apply (sorted_from_weaken u t); [lia|]. apply IH. exact H2.
+Qed.
+
+(* a timer already expired fires before anything later, whatever comes *)
+Lemma sp_drive_expired c st e r :
+  sp_due c st = Some e -> Forall (fun x => e < fst x) r ->
+  drive (sp_machine c) st r = snd (sp_expire st e) ++ drive (sp_machine c) (fst (sp_expire st e)) r.
+Proof.
+  intros Hd Hr. destruct r as [|[t i] r'].
+  - cbn [drive m_due m_expire sp_machine]. rewrite Hd. rewrite (sp_expire_clears c st e Hd). rewrite app_nil_r. reflexivity.
+  - inversion Hr as [|x l Hlt _]; subst. cbn [fst] in Hlt.
+    cbn [drive]. unfold pre_expire. cbn [m_due m_expire sp_machine]. rewrite Hd.
+    rewrite (sp_expire_clears c st e Hd).
+    destruct (e <? t) eqn:L; [|lia].
+    destruct (sp_expire st e) as [st1 o1]. cbn [fst snd].
+    destruct (m_step (sp_machine c) st1 t i) as [st2 o2]. destruct (post_expire (sp_machine c) st2 t) as [st3 o3].
+    reflexivity.
+Qed.
+
+Lemma sp_drive_skip c st t i r :
+  relevant i = false -> Forall (fun x => t < fst x) r ->
+  drive (sp_machine c) st ((t, i) :: r) = drive (sp_machine c) st r.
+Proof.
+  intros Hi Hr. assert (Hs : sp_step c st t i = (st, [])) by (destruct i; try discriminate; reflexivity).
+  cbn [drive]. unfold pre_expire, post_expire. cbn [m_due m_expire m_post m_step sp_machine].
+  destruct (sp_due c st) as [e|] eqn:Hd.
+  - destruct (e <? t) eqn:L.
+    + assert (Hs' : sp_step c (fst (sp_expire st e)) t i = (fst (sp_expire st e), []))
+        by (destruct i; try discriminate; reflexivity).
+      destruct (sp_expire st e) as [st1 o1] eqn:Ex. cbn [fst] in Hs'. rewrite Hs'.
+      replace (sp_due c st1) with (@None Z)
+        by (symmetry; change st1 with (fst (st1, o1)); rewrite <- Ex; apply (sp_expire_clears c st e Hd)).
+      cbn [app]. rewrite (sp_drive_expired c st e r Hd).
+      * rewrite Ex. reflexivity.
+      * eapply Forall_impl; [|exact Hr]. cbn. intros x Hx. lia.
+    + rewrite Hs. rewrite Hd. unfold sp_post. rewrite Hd.
+      destruct (e <=? t) eqn:L2.
+      * cbn [app]. rewrite (sp_drive_expired c st e r Hd).
+        -- destruct (sp_expire st e). reflexivity.
+        -- eapply Forall_impl; [|exact Hr]. cbn. intros x Hx. lia.
+      * reflexivity.
+  - rewrite Hs. rewrite Hd. reflexivity.
+Qed.
+
+Lemma sp_drive_filter c : forall h t0 st, sorted_from t0 h = true ->
+  drive (sp_machine c) st (filter (fun x => relevant (snd x)) h) = drive (sp_machine c) st h.
+Proof.
+  induction h as [|[t i] r IH]; intros t0 st Hs; [reflexivity|].
+  cbn in Hs. apply andb_true_iff in Hs as [_ Hs].
+  cbn [filter snd]. destruct (relevant i) eqn:Ri.
+  - cbn [drive]. destruct (pre_expire (sp_machine c) st t) as [st1 o1].
+    destruct (m_step (sp_machine c) st1 t i) as [st2 o2].
+    destruct (post_expire (sp_machine c) st2 t) as [st3 o3].
+    rewrite (IH t st3 Hs). reflexivity.
+  - rewrite (sp_drive_skip c st t i r Ri (sorted_from_all t r Hs)). apply (IH t st Hs).
+Qed.
+
+Theorem spec_irrelevant : forall wu c init h, sorted_times h = true ->
+  spec_runs wu c init (filter (fun x => relevant (snd x)) h) = spec_runs wu c init h.
+Proof.
+  intros wu c init h Hs. unfold spec_runs, run_machine.
+  destruct (sp_init wu c init) as [st0 o0]. destruct (post_expire (sp_machine c) st0 0) as [st1 o1].
+  rewrite (sp_drive_filter c h 0 st1 Hs). reflexivity.
+Qed.
+
+(* the hypotheses of [timeline] survive the removal of irrelevant inputs *)
+Lemma no_ties_aux_filter ds f : forall h prev prev', incl prev' prev ->
+  no_ties_aux ds prev h = true -> no_ties_aux ds prev' (filter (fun x => f (snd x)) h) = true.
+Proof.
+  induction h as [|[t i] r IH]; intros prev prev' Hi H; [reflexivity|].
+  cbn [no_ties_aux] in H. apply andb_true_iff in H as [Hnow H].
+  cbn [filter snd]. destruct (f i).
+  - cbn [no_ties_aux]. apply andb_true_iff. split.
+    + rewrite forallb_forall in *. intros p Hp. apply Hnow. apply Hi. exact Hp.
+    + apply (IH (t :: prev)); [|exact H]. intros x [<-|Hx]; [left; reflexivity|right; apply Hi; exact Hx].
+  - apply (IH (t :: prev)); [|exact H]. intros x Hx. right. apply Hi. exact Hx.
+Qed.
+
+Lemma any_ok_filter c f h : any_ok c h = true -> any_ok c (filter (fun x => f (snd x)) h) = true.
+Proof.
+  unfold any_ok. destruct (hold_false c); [|reflexivity].
+  induction h as [|[t i] r IH]; cbn; auto. intros H. apply andb_true_iff in H as [H1 H2].
+  destruct (f i); cbn; [rewrite H1|]; auto.
+Qed.
+
+Theorem irrelevant_no_effect : forall dv c init h,
+  all_off dv -> sorted_times h = true -> no_ties c h = true -> any_ok c h = true ->
+  let h' := filter (fun x => relevant (snd x)) h in
+  legacy_runs dv c init h' = legacy_runs dv c init h /\ dm_runs dv c init h' = dm_runs dv c init h
+  /\ wul_runs dv c init h' = wul_runs dv c init h /\ wud_runs dv c init h' = wud_runs dv c init h.
+Proof.
+  intros dv c init h Hoff Hs Hn Ha h'.
+  destruct (timeline dv c init h Hoff Hs Hn Ha) as (E1 & E2 & E3 & E4).
+  assert (Hs' : sorted_times h' = true) by (apply sorted_from_filter; exact Hs).
+  assert (Hn' : no_ties c h' = true) by (apply (no_ties_aux_filter _ relevant h [0] [0]); [apply incl_refl|exact Hn]).
+  assert (Ha' : any_ok c h' = true) by (apply any_ok_filter; exact Ha).
+  destruct (timeline dv c init h' Hoff Hs' Hn' Ha') as (F1 & F2 & F3 & F4).
+  rewrite E1, E2, E3, E4, F1, F2, F3, F4. unfold h'.
+  rewrite !spec_irrelevant by exact Hs. auto.
+Qed.
+
+(* ---------- definition-time trigger (first sentence of the property; state_hold unset) ---------- *)
+Lemma sp_drive_times c : hold c = None -> forall h st,
+  Forall (fun r => In (fst r) (map fst h)) (drive (sp_machine c) st h).
+Proof.
+  intros Hh. assert (Hd : forall st, sp_due c st = None).
+  { intros st. unfold sp_due. rewrite Hh. destruct (s_pend st) as [[? ?]|]; reflexivity. }
+  induction h as [|[t i] r IH]; intros st.
+  - cbn [drive m_due sp_machine]. rewrite Hd. constructor.
+  - cbn [drive]. unfold pre_expire, post_expire. cbn [m_due m_step sp_machine]. rewrite Hd.
+    destruct (sp_step c st t i) as [st2 o2] eqn:Es. rewrite Hd. cbn [app].
+    apply Forall_app. split.
+    + assert (Ho : o2 = [] \/ exists a, o2 = [(t, a)]).
+      { destruct i as [[|] a|a|a|]; cbn [sp_step] in Es; unfold sp_trigger in Es; try rewrite Hh in Es.
+        - destruct (hold_false c) as [hf|]; [destruct (s_fs st) as [f|]; [destruct (hf <=? t - f)|]|];
+            inversion Es; eauto.
+        - inversion Es; auto.
+        - inversion Es; eauto.
+        - inversion Es; auto.
+        - inversion Es; auto. }
+      destruct Ho as [->|[a ->]]; constructor; [cbn; auto|constructor].
+    + eapply Forall_impl; [|apply IH]. cbn. intros x Hx. right. exact Hx.
+Qed.
+
+Lemma firstn_Forall {A} (P : A -> Prop) n l : Forall P l -> Forall P (firstn n l).
+Proof. revert n. induction l; intros [|n] H; cbn; auto. inversion H; subst. constructor; auto. Qed.
+
+Theorem spec_definition_time : forall wu c init h,
+  hold c = None -> sorted_times h = true ->
+  ((exists a, In (0, a) (spec_runs wu c init h)) <-> (if wu then cn_wu c else cn_dec c) && init = true).
+Proof.
+  intros wu c init h Hh Hs.
+  assert (Hd : forall st, sp_due c st = None).
+  { intros st. unfold sp_due. rewrite Hh. destruct (s_pend st) as [[? ?]|]; reflexivity. }
+  assert (Hpos : Forall (fun r : run => 0 < fst r) (drive (sp_machine c) (fst (sp_init wu c init)) h)).
+  { pose proof (sp_drive_times c Hh h (fst (sp_init wu c init))) as Ht.
+    pose proof (sorted_from_all 0 h Hs) as Hall.
+    eapply Forall_impl; [|exact Ht]. cbn. intros r Hin. apply in_map_iff in Hin as (x & Hx & Hin).
+    rewrite Forall_forall in Hall. specialize (Hall x Hin). lia. }
+  unfold spec_runs, run_machine. destruct (sp_init wu c init) as [st0 o0] eqn:Ei. cbn [fst] in Hpos.
+  unfold post_expire. cbn [m_due sp_machine]. rewrite Hd. cbn [app].
+  unfold sp_init, sp_trigger in Ei. rewrite Hh in Ei.
+  destruct ((if wu then cn_wu c else cn_dec c) && init); inversion Ei; subst; clear Ei.
+  - split; [reflexivity|]. intros _. exists 0%N. destruct wu; cbn; auto.
+  - split; [|discriminate]. intros [a Hin]. exfalso. cbn [app] in Hin.
+    set (d := drive _ _ h) in *.
+    assert (Hp : Forall (fun r : run => 0 < fst r) (once wu d))
+      by (destruct wu; cbn [once]; [apply firstn_Forall|]; exact Hpos).
+    rewrite Forall_forall in Hp. specialize (Hp _ Hin). cbn in Hp. lia.
+Qed.
+
+Theorem definition_time : forall dv c init h,
+  all_off dv -> hold c = None -> sorted_times h = true -> no_ties c h = true -> any_ok c h = true ->
+  ((exists a, In (0, a) (legacy_runs dv c init h)) <-> cn_dec c && init = true)
+  /\ ((exists a, In (0, a) (dm_runs dv c init h)) <-> cn_dec c && init = true)
+  /\ ((exists a, In (0, a) (wul_runs dv c init h)) <-> cn_wu c && init = true)
+  /\ ((exists a, In (0, a) (wud_runs dv c init h)) <-> cn_wu c && init = true).
+Proof.
+  intros dv c init h Hoff Hh Hs Hn Ha.
+  destruct (timeline dv c init h Hoff Hs Hn Ha) as (E1 & E2 & E3 & E4).
+  rewrite E1, E2, E3, E4.
+  repeat split; try (apply (spec_definition_time false c init h Hh Hs)); try (apply (spec_definition_time true c init h Hh Hs)).
+Qed.
+
+(* ---------- a concrete non-trivial instance of the hypotheses ---------- *)
+Definition ex_cfg : hcfg := {| check_now := Some true; hold := Some 2500000; hold_false := Some 1500000 |}.
+Definition ex_hist : history :=
+  [(1000000, HEval true 1%N); (2000000, HIrr 2%N); (3000000, HEval false 3%N); (4000000, HUnw);
+   (5000000, HEval true 4%N); (6000000, HEval true 5%N); (9000000, HEval false 6%N); (10000000, HEval true 7%N)].
+
+Example timeline_hyps_inhabited :
+  sorted_times ex_hist = true /\ no_ties ex_cfg ex_hist = true /\ any_ok ex_cfg ex_hist = true
+  /\ spec_runs false ex_cfg true ex_hist = [(2500000, 0%N); (7500000, 4%N)]
+  /\ legacy_runs no_dev ex_cfg true ex_hist = [(2500000, 0%N); (7500000, 4%N)]
+  /\ dm_runs no_dev ex_cfg true ex_hist = [(2500000, 0%N); (7500000, 4%N)].
+Proof. vm_compute. repeat split. Qed.
+
+Definition ex_cfg0 : hcfg := {| check_now := Some true; hold := None; hold_false := Some 0 |}.
+Example definition_time_hyps_inhabited :
+  hold ex_cfg0 = None /\ sorted_times ex_hist = true /\ no_ties ex_cfg0 ex_hist = true /\ any_ok ex_cfg0 ex_hist = true
+  /\ spec_runs false ex_cfg0 true ex_hist = [(0, 0%N); (5000000, 4%N); (10000000, 7%N)].
+Proof. vm_compute. repeat split. Qed.
+
+(* ---------- the code as it is today: each deviation refutes the statement ---------- *)
+Definition only (k : nat) : deviations :=
+  {| d_irr_as_false := Nat.eqb k 14; d_latest_args := Nat.eqb k 50; d_dm_start_hf := Nat.eqb k 51;
+     d_wul_init_false := Nat.eqb k 52; d_wud_drop_hf := Nat.eqb k 53 |}.
+
+Definition in_domain (c : hcfg) (h : history) : Prop :=
+  sorted_times h = true /\ no_ties c h = true /\ any_ok c h = true.
+
+(* D14: state_hold=2.5, true at 1 s, attribute-only update at 2 s: Spec runs at 3.5 s, the default subsystem never *)
+Lemma refuted_D14 : exists c init h, in_domain c h /\ dm_runs (only 14) c init h <> spec_runs false c init h.
+Proof.
+  exists {| check_now := None; hold := Some 2500000; hold_false := None |}, false,
+    [(1000000, HEval true 1%N); (2000000, HIrr 2%N)].
+  split; [vm_compute; auto|vm_compute; discriminate].
+Qed.
+
+(* D14, hold_false flavour: an attribute-only update starts the state_hold_false period although never false *)
+Lemma refuted_D14_hold_false : exists c init h, in_domain c h /\ dm_runs (only 14) c init h <> spec_runs false c init h.
+Proof.
+  exists {| check_now := None; hold := None; hold_false := Some 1500000 |}, true,
+    [(1000000, HIrr 1%N); (3000000, HEval true 2%N)].
+  split; [vm_compute; auto|vm_compute; discriminate].
+Qed.
+
+Lemma refuted_D50 : exists c init h, in_domain c h /\ dm_runs (only 50) c init h <> spec_runs false c init h.
+Proof.
+  exists {| check_now := None; hold := Some 2500000; hold_false := None |}, false,
+    [(1000000, HEval true 1%N); (2000000, HEval true 2%N)].
+  split; [vm_compute; auto|vm_compute; discriminate].
+Qed.
+
+Lemma refuted_D51 : exists c init h, in_domain c h /\ dm_runs (only 51) c init h <> spec_runs false c init h.
+Proof.
+  exists {| check_now := Some true; hold := None; hold_false := Some 1500000 |}, true, [].
+  split; [vm_compute; auto|vm_compute; discriminate].
+Qed.
+
+Lemma refuted_D52 : exists c init h, in_domain c h /\ wul_runs (only 52) c init h <> spec_runs true c init h.
+Proof.
+  exists {| check_now := None; hold := None; hold_false := Some 1500000 |}, false, [(2000000, HEval true 1%N)].
+  split; [vm_compute; auto|vm_compute; discriminate].
+Qed.
+
+Lemma refuted_D53 : exists c init h, in_domain c h /\ wud_runs (only 53) c init h <> spec_runs true c init h.
+Proof.
+  exists {| check_now := None; hold := Some 2500000; hold_false := Some 1500000 |}, true,
+    [(1000000, HEval false 1%N); (2000000, HEval true 2%N)].
+  split; [vm_compute; auto|vm_compute; discriminate].
+Qed.
+
+(* ---------- what the correspondence evaluates: a reproduced behaviour of conformant code satisfies the Spec ---------- *)
+Lemma run_close_refl_eq l1 l2 l3 : l1 = l2 -> runs_close l1 l3 = runs_close l2 l3.
+Proof. intros ->. reflexivity. Qed.
+
+Theorem model_implies_spec : forall c, hcase_model_ok no_dev c = true -> hcase_spec_ok c = true.
+Proof.
+  intros c H. unfold hcase_spec_ok. destruct (hcase_in_scope c) eqn:Sc; [|reflexivity]. cbn [negb orb].
+  unfold hcase_in_scope in Sc. apply andb_true_iff in Sc as [Sc Ha]. apply andb_true_iff in Sc as [Hs Hn].
+  unfold hcase_model_ok in H. apply andb_true_iff in H as [_ H].
+  destruct (timeline no_dev (hc_cfg c) (hc_init c) (hc_hist c) eq_refl Hs Hn Ha) as (E1 & E2 & E3 & E4).
+  unfold spec_of. unfold model_runs in H.
+  destruct (hc_legacy c), (hc_wu c); [rewrite <- E3|rewrite <- E1|rewrite <- E4|rewrite <- E2]; exact H.
+Qed.
+
+Example model_implies_spec_hyp_inhabited :
+  hcase_model_ok no_dev {| hc_legacy := false; hc_wu := false; hc_cfg := ex_cfg; hc_init := true; hc_hist := ex_hist;
+                           hc_obs := [(2500000, 0%N); (7500000, 4%N)]; hc_clean := true |} = true.
+Proof. vm_compute. reflexivity. Qed.
